@@ -69,7 +69,11 @@ def rintI (x : F) : Int :=
   let d := x - ofI n
   if d < half then n else if half < d then n + 1 else if n % 2 = 0 then n else n + 1
 
-def rint (x : F) : F := ofI (rintI x)
+/-- `numpy.rint` as a scalar.  A result of zero keeps the sign of the argument (`rint(-0.3) = -0.0` in IEEE
+arithmetic; over ℚ/ℝ the product is just 0), so the sign of a zero grid member is modelled, too. -/
+def rint (x : F) : F :=
+  let n := rintI x
+  if n = 0 then ofI 0 * x else ofI n
 
 /-- `10 ** d` (exact in double precision for `d ≤ 22`) -/
 def p10 (d : Nat) : F := ofI ((10 : Int) ^ d)
